@@ -222,3 +222,14 @@ func waitUntil(cond func() bool) bool {
 		}
 	}
 }
+
+// watched runs f (a library call that must not block for long) on its own
+// goroutine and waits for it with the usual watchdog / dead-state proof.
+func watched(f func()) bool {
+	done := make(chan struct{})
+	go func() {
+		f()
+		close(done)
+	}()
+	return waitCh(done)
+}
